@@ -6,7 +6,9 @@ import (
 	"fmt"
 	"math/rand"
 	"net"
+	"sort"
 	"strings"
+	"time"
 
 	"github.com/zeebo/errs"
 
@@ -204,8 +206,18 @@ type muxSrv struct {
 type muxDesc struct{}
 
 func (muxDesc) NumMethods() int { return 4 }
+// badEnc is the server's encoding: a request that starts with "!bad" does not decode.
+type badEnc struct{ dir.GateEnc }
+
+func (e *badEnc) Unmarshal(b []byte, m drpc.Message) error {
+	if strings.HasPrefix(string(b), "!bad") {
+		return errors.New("cannot decode request")
+	}
+	return e.GateEnc.Unmarshal(b, m)
+}
+
 func (muxDesc) Method(n int) (string, drpc.Encoding, drpc.Receiver, interface{}, bool) {
-	enc := &dir.GateEnc{}
+	enc := &badEnc{}
 	switch n {
 	case 0:
 		return "/svc/Unary", enc, func(srv interface{}, ctx context.Context, in1, in2 interface{}) (drpc.Message, error) {
@@ -394,10 +406,50 @@ func muxErrors(c *vf.Ctx) {
 			if err == nil || !strings.Contains(err.Error(), `unknown rpc: "/svc/Nope"`) {
 				c.Violation("unknown rpc not reported to the caller", map[string]any{"got": fmt.Sprint(err)})
 			}
+			// a request the dispatcher cannot decode: the caller gets that error, nothing hangs
+			hung := func(what string, f func() error) (error, bool) {
+				ch := make(chan error, 1)
+				go func() { ch <- f() }()
+				select {
+				case e := <-ch:
+					return e, false
+				case <-time.After(8 * time.Second):
+					where := []string{}
+					for _, g := range vf.Census() {
+						if fr := g.Innermost("storj.io/drpc/"); fr != "" && g.Blocked() {
+							where = append(where, fr[strings.LastIndex(fr, "/")+1:])
+						}
+					}
+					sort.Strings(where)
+					c.Violation("call does not return: "+what, map[string]any{"case": tc.name, "parked": where})
+					_ = a.Close()
+					_ = b.Close()
+					return nil, true
+				}
+			}
+			if k == 0 {
+				e, h := hung("unary call with an undecodable request", func() error {
+					return conn.Invoke(context.Background(), "/svc/Unary", enc, &dir.Msg{Data: []byte("!bad request")}, &out)
+				})
+				if h {
+					cancel()
+					continue
+				}
+				if e == nil || e.Error() != "cannot decode request" {
+					c.Violation("undecodable request not reported to the caller with the decoder's error", map[string]any{"got": fmt.Sprint(e)})
+				}
+			}
 			// the connection remains usable: a handler that returns a response and no error never yields an error
 			srvImpl.fail = func() error { return nil }
-			if err := conn.Invoke(context.Background(), "/svc/Unary", enc, &dir.Msg{Data: []byte("ok")}, &out); err != nil || string(out.Data) != "re:ok" {
-				c.Violation("connection not usable after handler errors, or a successful handler yielded an error", map[string]any{"case": tc.name, "err": fmt.Sprint(err), "reply": string(out.Data)})
+			e, h := hung("unary call on a connection that served failing calls before", func() error {
+				return conn.Invoke(context.Background(), "/svc/Unary", enc, &dir.Msg{Data: []byte("ok")}, &out)
+			})
+			if h {
+				cancel()
+				continue
+			}
+			if e != nil || string(out.Data) != "re:ok" {
+				c.Violation("connection not usable after handler errors, or a successful handler yielded an error", map[string]any{"case": tc.name, "err": fmt.Sprint(e), "reply": string(out.Data)})
 			}
 			_ = conn.Close()
 			cancel()
